@@ -182,6 +182,17 @@ def prune_contradictions(fn, dnf):
     return out
 
 
+def param(fn, ty_part, nth=0):
+    """canonical name (`argN`) of the nth parameter whose declared type contains `ty_part`: rules designate parameters by their
+    type / position, never by the name the source gives them"""
+    def strip_ref(t):
+        return t[5:] if t.startswith('&mut ') else (t[1:] if t.startswith('&') else t)
+    hits = [i for i in range(1, fn.argc + 1) if (strip_ref(fn.locals[i]['ty']).startswith(ty_part[1:]) if ty_part.startswith('^') else ty_part in fn.locals[i]['ty'])]
+    if len(hits) <= nth:
+        raise AnchorMissing('%s has no parameter of type ..%s..' % (fn.path, ty_part))
+    return 'arg%d' % hits[nth]
+
+
 def term_match(a, b):
     """structural equality of two symex terms in which an unresolved local (`_N`) on either side matches any sub-term: two prints of
     the same source expression can be resolved to different depths"""
